@@ -69,6 +69,16 @@ inductive Act
 inductive Phase | suiteSetup | ctxSetup | body | ctxTeardown | suiteTeardown | tally
   deriving DecidableEq, Repr, Inhabited
 
+/-- Where the verification hook (`CGREEN_VERIF_KILLPOINT`) ends the process that runs a test: at a
+named point of `run_the_test_code` (an index into the test's script), just before or just after the
+k-th record write, or after the completion notice has been written (during process exit). -/
+structure KillPlan where
+  atStep : Option Nat := none
+  atWrite : Option (Nat × Bool) := none      -- (k, after?) ; k counts from 1
+  late : Bool := false
+  how : Death := .signal 9
+  deriving Repr, Inhabited
+
 /-- A test as registered: `xskip` is `xEnsure`; `ctx` is `some (setup, teardown)` when the test belongs
 to a `Describe`d context (whose BeforeEach/AfterEach do `setup`/`teardown`), `none` for the default
 context. -/
@@ -77,6 +87,7 @@ structure Test where
   xskip : Bool := false
   ctx : Option (List Act × List Act) := none
   body : List Act := []
+  kill : Option KillPlan := none
   deriving Repr, Inhabited
 
 /-- A suite after the normalisation `run_every_test` performs: sub-suites first (in registration
@@ -115,13 +126,21 @@ structure Proc where
   fails : Nat := 0             -- failing checks executed (each prints a failure message at once)
   decls : List Bool := []      -- tally results owed
   dead : Option Death := none  -- `some d`: the process has ended early
+  sends : Nat := 0             -- records written so far by this process
+  killWrite : Option (Nat × Bool) := none   -- kill plan: before/after the k-th write
+  how : Death := .signal 9                  -- … and how
+  late : Option Death := none  -- killed after the completion notice was written
   deriving Repr, Inhabited
 
 /-- `send_cgreen_message` on a non-blocking pipe holding at most `cap` records: a write into a full
 pipe fails with EWOULDBLOCK and the writer raises SIGPIPE (posix_cgreen_pipe.c). -/
 def Proc.send (cap : Nat) (pr : Proc) (r : Rec) : Proc :=
   if pr.dead.isSome then pr
-  else if pr.pipe.length < cap then { pr with pipe := pr.pipe ++ [r] }
+  else if pr.killWrite = some (pr.sends + 1, false) then { pr with dead := some pr.how }
+  else if pr.pipe.length < cap then
+    if pr.killWrite = some (pr.sends + 1, true)
+    then { pr with pipe := pr.pipe ++ [r], sends := pr.sends + 1, dead := some pr.how }
+    else { pr with pipe := pr.pipe ++ [r], sends := pr.sends + 1 }
   else { pr with dead := some (.signal 13) }
 
 def recOf (ok : Bool) : Rec := if ok then .pass else .fail
@@ -147,9 +166,33 @@ def Proc.steps (cap : Nat) (pr : Proc) : List Step → Proc
   | [] => pr
   | s :: ss => (pr.step cap s).steps cap ss
 
+/-- The script with the kill plan's named point made explicit. -/
+def scriptOf (su td : Bool) (t : Test) : List Step :=
+  match t.kill with
+  | some { atStep := some i, how := d, .. } => (script su td t).insertIdx i (Step.act (.die d))
+  | _ => script su td t
+
+def planOf (t : Test) : KillPlan := t.kill.getD {}
+
+def Death.isSignal : Death → Bool
+  | .signal _ => true
+  | _ => false
+
+/-- The completion notice. Once it is written the test is complete: an `exit` right after it is what
+the process does anyway; only a signal still kills it (`late`). -/
+def Proc.sendCompletion (cap : Nat) (pr : Proc) (lateKill : Bool) : Proc :=
+  if pr.dead.isSome then pr
+  else if pr.killWrite = some (pr.sends + 1, false) then { pr with dead := some pr.how }
+  else if pr.pipe.length < cap then
+    { pr with pipe := pr.pipe ++ [.completion], sends := pr.sends + 1,
+              late := if (pr.killWrite = some (pr.sends + 1, true) || lateKill) && pr.how.isSignal
+                      then some pr.how else none }
+  else { pr with dead := some (.signal 13) }
+
 /-- The code a process runs for a test: the script, then the completion notice. -/
 def runCode (cap : Nat) (pipe : List Rec) (su td : Bool) (t : Test) : Proc :=
-  (({ pipe := pipe } : Proc).steps cap (script su td t)).send cap .completion
+  (({ pipe := pipe, killWrite := (planOf t).atWrite, how := (planOf t).how } : Proc).steps cap (scriptOf su td t)).sendCompletion
+    cap (planOf t).late
 
 inductive Finish | received | skippedSt | notReceived
   deriving DecidableEq, Repr, Inhabited
@@ -209,14 +252,21 @@ structure Cfg where
 
 def evs (proc : Nat) (path : List String) (tr : List Phase) : List Out := tr.map (Out.ev proc path)
 
-/-- `reporter_finish_test`: read, then an unreceived completion is one exception. -/
-def finishTest (s : St) (path : List String) : St :=
+/-- Does the parent pass a message to `finish_test`? Exactly when the child was killed by a signal. -/
+def signalMsg : Option Death → Bool
+  | some (.signal _) => true
+  | _ => false
+
+/-- `reporter_finish_test`: read; an unreceived completion is one exception, and so is a completed
+test whose process was then killed by a signal (`msg`). -/
+def finishTest (s : St) (path : List String) (msg : Bool) : St :=
   let r := readResults s.cur false s.pipe
   let st := r.2.2
-  let c' := if st = .notReceived then r.1 + Rec.exception.cnt else r.1
+  let exc : Bool := st = .notReceived || (st = .received && msg)
+  let c' := if exc then r.1 + Rec.exception.cnt else r.1
   let delta : Cnt := ⟨c'.p - s.cur.p, c'.f - s.cur.f, c'.s - s.cur.s, c'.e - s.cur.e⟩
   { s with pipe := r.2.1, cur := c',
-           out := s.out ++ ((if st = .notReceived then [Out.excLine path] else []) ++ [Out.testEnd path delta st]) }
+           out := s.out ++ ((if exc then [Out.excLine path] else []) ++ [Out.testEnd path delta st]) }
 
 /-- One test (`run_test_in_its_own_process` / `run_test_in_the_current_process`). -/
 def runTest (cfg : Cfg) (su td : Bool) (path : List String) (s : St) (t : Test) : St :=
@@ -228,19 +278,20 @@ def runTest (cfg : Cfg) (su td : Bool) (path : List String) (s : St) (t : Test) 
     let pr := ({ pipe := s.pipe } : Proc).send cfg.cap .skipped
     match pr.dead with
     | some d => { s with pipe := pr.pipe, halted := some d }
-    | none => finishTest { s with pipe := pr.pipe } tp
+    | none => finishTest { s with pipe := pr.pipe } tp false
   else
     let pr := runCode cfg.cap s.pipe su td t
     match cfg.mode with
     | .fork =>
         finishTest { s with pipe := pr.pipe, nproc := s.nproc + 1,
                             out := s.out ++ (evs (s.nproc + 1) tp pr.trace ++ [Out.failLines tp pr.fails]) } tp
+          (signalMsg (pr.dead <|> pr.late))
     | .inproc =>
         let s := { s with pipe := pr.pipe,
                           out := s.out ++ (evs 0 tp pr.trace ++ [Out.failLines tp pr.fails]) }
         match pr.dead with
         | some d => { s with halted := some d }
-        | none => finishTest s tp
+        | none => finishTest s tp false
 
 def runTests (cfg : Cfg) (su td : Bool) (path : List String) (s : St) : List Test → St
   | [] => s
@@ -337,15 +388,17 @@ def run (cfg : Cfg) (t : Tree) : St :=
 
 /-! ### What happened, computed from the scripts alone (the specification side) -/
 
-/-- The counts a test contributes when it runs alone on an empty channel of capacity `cap`:
-every check it executed before ending, one skip if it skipped, one exception if it did not complete. -/
-def Test.truth (cap : Nat) (su td : Bool) (t : Test) : Cnt :=
-  if t.xskip then Rec.skipped.cnt else
-  let pr := runCode cap [] su td t
+/-- The counts of a finished process: every check it delivered before ending, one skip if it called
+`skip_test()`, one exception if it did not complete. -/
+def Proc.truth (pr : Proc) : Cnt :=
   let delivered := pr.pipe.filter (· != .completion)
   let skippedOnce : Cnt := if Rec.skipped ∈ delivered then Rec.skipped.cnt else 0
   let checks : Cnt := ⟨(delivered.filter (· == .pass)).length, (delivered.filter (· == .fail)).length, 0, 0⟩
-  checks + skippedOnce + (if pr.dead.isSome then Rec.exception.cnt else 0)
+  checks + skippedOnce + (if pr.dead.isSome || pr.late.isSome then Rec.exception.cnt else 0)
+
+/-- The counts a test contributes when it runs alone on an empty channel of capacity `cap`. -/
+def Test.truth (cap : Nat) (su td : Bool) (t : Test) : Cnt :=
+  if t.xskip then Rec.skipped.cnt else (runCode cap [] su td t).truth
 
 def truthTests (cap : Nat) (su td : Bool) : List Test → Cnt
   | [] => 0
